@@ -252,5 +252,278 @@ Lemma goodp_kill_m pm ps k : goodp pm ps k -> goodp False ps (kill TM k).
 Proof. destruct k as [cl g m s qms qsm cut]. unfold goodp, kill, cut_conn, set_end. cbn. intuition (try congruence; try discriminate). Qed.
 Lemma goodp_kill_s pm ps k : goodp pm ps k -> goodp pm False (kill TS k).
 Proof. destruct k as [cl g m s qms qsm cut]. unfold goodp, kill, cut_conn, set_end. cbn. intuition (try congruence; try discriminate). Qed.
-Lemma goodp_fresh x g a b : goodp False False (mkconn x g ENeg ENeg [a] [b] false).
-Proof. unfold goodp. cbn. Abort.
+Lemma goodp_fresh x g a b a' b' : goodp False False (mkconn x g ENeg ENeg [Hello a b] [Hello a' b'] false).
+Proof. unfold goodp. cbn. intuition (try congruence; try discriminate). Qed.
+
+(* ------------------------------------------------------------------------------------------ *)
+(* 3. the invariant on states                                                                  *)
+
+Definition invb (bm bs : option nat) (f : nat -> conn) : Prop :=
+  forall i, goodp (bm = Some i) (bs = Some i) (f i).
+Definition bounded (s : state) : Prop :=
+  (forall c, t_broker (tm s) = Some c -> c < nconn s) /\ (forall c, t_broker (ts s) = Some c -> c < nconn s).
+Definition inv (s : state) : Prop := invb (t_broker (tm s)) (t_broker (ts s)) (conns s) /\ bounded s.
+
+Lemma invb_upd bm bs f c k' : invb bm bs f -> goodp (bm = Some c) (bs = Some c) k' -> invb bm bs (upd f c k').
+Proof. intros H Hk i. unfold upd. destruct (Nat.eqb_spec i c); [subst; exact Hk|apply H]. Qed.
+
+Lemma invb_map bm bs f g :
+  invb bm bs f -> (forall pm ps k, goodp pm ps k -> goodp pm ps (g k)) -> invb bm bs (fun i => g (f i)).
+Proof. intros H Hg i. apply Hg, H. Qed.
+
+Lemma invb_clear_m bs f e k' : invb (Some e) bs f -> goodp False (bs = Some e) k' -> invb None bs (upd f e k').
+Proof.
+  intros H Hk i. unfold upd. destruct (Nat.eqb_spec i e).
+  - subst. eapply goodp_iff; [| |exact Hk]; intuition discriminate.
+  - eapply goodp_iff; [| |apply (H i)]; [|reflexivity]. split; [intros E; inversion E; congruence|discriminate].
+Qed.
+Lemma invb_clear_s bm f e k' : invb bm (Some e) f -> goodp (bm = Some e) False k' -> invb bm None (upd f e k').
+Proof.
+  intros H Hk i. unfold upd. destruct (Nat.eqb_spec i e).
+  - subst. eapply goodp_iff; [| |exact Hk]; intuition discriminate.
+  - eapply goodp_iff; [| |apply (H i)]; [reflexivity|]. split; [intros E; inversion E; congruence|discriminate].
+Qed.
+Lemma invb_set_m bs f c k' : invb None bs f -> goodp True (bs = Some c) k' -> invb (Some c) bs (upd f c k').
+Proof.
+  intros H Hk i. unfold upd. destruct (Nat.eqb_spec i c).
+  - subst. eapply goodp_iff; [| |exact Hk]; intuition.
+  - eapply goodp_iff; [| |apply (H i)]; [|reflexivity]. split; [discriminate|intros E; inversion E; congruence].
+Qed.
+Lemma invb_set_s bm f c k' : invb bm None f -> goodp (bm = Some c) True k' -> invb bm (Some c) (upd f c k').
+Proof.
+  intros H Hk i. unfold upd. destruct (Nat.eqb_spec i c).
+  - subst. eapply goodp_iff; [| |exact Hk]; intuition.
+  - eapply goodp_iff; [| |apply (H i)]; [reflexivity|]. split; [discriminate|intros E; inversion E; congruence].
+Qed.
+
+Lemma upd_same f c k : upd f c k c = k.
+Proof. unfold upd. rewrite Nat.eqb_refl. reflexivity. Qed.
+Lemma upd_other f c k i : i <> c -> upd f c k i = f i.
+Proof. unfold upd. intros H. destruct (Nat.eqb_spec i c); [contradiction|reflexivity]. Qed.
+
+Lemma init_inv : inv init.
+Proof.
+  split; [|split; cbn; discriminate]. intros i. cbn. eapply goodp_iff; [| |exact goodp_dead]; intuition discriminate.
+Qed.
+
+Lemma inv_same s s' :
+  t_broker (tm s') = t_broker (tm s) -> t_broker (ts s') = t_broker (ts s) -> conns s' = conns s -> nconn s' = nconn s ->
+  inv s -> inv s'.
+Proof. unfold inv, bounded. intros -> -> -> ->. auto. Qed.
+
+Lemma broker_connector_gone t : t_broker (connector_gone t) = t_broker t.
+Proof. destruct t as [a b c d e f g h i j k]. unfold connector_gone. cbn. destruct b; reflexivity. Qed.
+
+Lemma set_tub_inv x t s : t_broker t = t_broker (tubof x s) -> inv s -> inv (set_tub x t s).
+Proof. intros E. apply inv_same; destruct x; cbn; auto. Qed.
+
+Lemma connector_failed_inv x g s : inv s -> inv (connector_failed x g s).
+Proof.
+  intros H. unfold connector_failed. destruct (t_connector (tubof x s)); [|exact H].
+  destruct (Nat.eqb g n && negb (any_pending x g s))%bool; [|exact H].
+  apply set_tub_inv; [apply broker_connector_gone|exact H].
+Qed.
+
+Lemma getref_inv x s : inv s -> inv (do_getref x s).
+Proof.
+  intros H. unfold do_getref. destruct (t_broker (tubof x s)) eqn:E.
+  - apply set_tub_inv; [cbn; auto|exact H].
+  - destruct (t_connector (tubof x s)); (apply set_tub_inv; [cbn; auto|exact H]).
+Qed.
+
+Lemma dial_inv x s : inv s -> inv (do_dial x s).
+Proof.
+  intros [Hb [Hm Hs]]. unfold do_dial. destruct (t_connector (tubof x s)); [|split; [exact Hb|split; assumption]].
+  split; cbn [tm ts conns nconn].
+  - apply invb_upd; [exact Hb|]. eapply goodp_iff; [| |apply goodp_fresh].
+    + split; [tauto|]. intros E. apply Hm in E. lia.
+    + split; [tauto|]. intros E. apply Hs in E. lia.
+  - split; cbn [tm ts nconn]; intros c E; [apply Hm in E|apply Hs in E]; lia.
+Qed.
+
+Lemma cut_inv c s : inv s -> inv (do_cut c s).
+Proof.
+  intros [Hb Hbd]. split; [|exact Hbd]. cbn [do_cut set_conns tm ts conns].
+  apply invb_upd; [exact Hb|]. apply goodp_cut. apply Hb.
+Qed.
+
+Lemma restart_inv x s : inv s -> inv (do_restart x s).
+Proof.
+  intros [Hb [Hm Hs]]. unfold do_restart. destruct x; cbn [set_tub map_conns set_conns tubof tm ts conns nconn].
+  - split; [|split; cbn; [discriminate|exact Hs]]. cbn [new_tub t_broker]. intros i.
+    eapply goodp_iff; [| |eapply goodp_kill_m; apply (Hb i)]; [|reflexivity]. intuition discriminate.
+  - split; [|split; cbn; [exact Hm|discriminate]]. cbn [new_tub t_broker]. intros i.
+    eapply goodp_iff; [| |eapply goodp_kill_s; apply (Hb i)]; [reflexivity|]. intuition discriminate.
+Qed.
+
+Lemma map_cancel_inv x g s : inv s -> inv (map_conns (cancel x g) s).
+Proof.
+  intros [Hb Hbd]. split; [|exact Hbd]. cbn [map_conns set_conns tm ts conns].
+  apply invb_map; [exact Hb|]. intros pm ps k. apply goodp_cancel.
+Qed.
+
+Lemma timeout_inv x s : inv s -> inv (do_timeout x s).
+Proof.
+  intros H. unfold do_timeout. destruct (t_connector (tubof x s)); [|exact H].
+  apply set_tub_inv; [apply broker_connector_gone|]. apply map_cancel_inv, H.
+Qed.
+
+(* connectionLost at one end *)
+Lemma conn_lost_inv_m c pre s :
+  inv s -> cend TM (pre (conns s c)) = c_m (conns s c) ->
+  goodp False (t_broker (ts s) = Some c) (set_end TM ELost (pre (conns s c))) ->
+  inv (conn_lost TM c pre s).
+Proof.
+  intros [Hb Hbd] He Hg. unfold conn_lost.
+  pose proof (Hb c) as Hc. destruct Hc as [Hc1 _].
+  set (s1 := set_conns (upd (conns s) c (set_end TM ELost (pre (conns s c)))) s).
+  assert (Hnb : c_m (conns s c) <> EBrk -> inv s1).
+  { intros Hne. split; [|exact Hbd]. cbn [s1 set_conns tm ts conns]. apply invb_upd; [exact Hb|].
+    eapply goodp_iff; [| |exact Hg]; [|reflexivity]. split; [tauto|]. intros E. apply Hne, Hc1, E. }
+  rewrite He. destruct (c_m (conns s c)) eqn:Em;
+    try (apply Hnb; discriminate);
+    try (destruct (tub_eqb (c_client (pre (conns s c))) TM); [apply connector_failed_inv|]; apply Hnb; discriminate).
+  (* EBrk: the live broker is detached *)
+  assert (Eb : t_broker (tm s) = Some c) by (apply Hc1; reflexivity).
+  cbn [tubof s1 set_conns tm]. rewrite Eb, Nat.eqb_refl.
+  destruct Hbd as [Hm Hs]. split; [|split; cbn; [discriminate|exact Hs]].
+  cbn [set_tub set_conns tm ts conns set_broker t_broker]. apply invb_clear_m; [rewrite <- Eb; exact Hb|exact Hg].
+Qed.
+
+Lemma conn_lost_inv_s c pre s :
+  inv s -> cend TS (pre (conns s c)) = c_s (conns s c) ->
+  goodp (t_broker (tm s) = Some c) False (set_end TS ELost (pre (conns s c))) ->
+  inv (conn_lost TS c pre s).
+Proof.
+  intros [Hb Hbd] He Hg. unfold conn_lost.
+  pose proof (Hb c) as Hc. destruct Hc as [_ [Hc1 _]].
+  set (s1 := set_conns (upd (conns s) c (set_end TS ELost (pre (conns s c)))) s).
+  assert (Hnb : c_s (conns s c) <> EBrk -> inv s1).
+  { intros Hne. split; [|exact Hbd]. cbn [s1 set_conns tm ts conns]. apply invb_upd; [exact Hb|].
+    eapply goodp_iff; [| |exact Hg]; [reflexivity|]. split; [tauto|]. intros E. apply Hne, Hc1, E. }
+  rewrite He. destruct (c_s (conns s c)) eqn:Em;
+    try (apply Hnb; discriminate);
+    try (destruct (tub_eqb (c_client (pre (conns s c))) TS); [apply connector_failed_inv|]; apply Hnb; discriminate).
+  assert (Eb : t_broker (ts s) = Some c) by (apply Hc1; reflexivity).
+  cbn [tubof s1 set_conns ts]. rewrite Eb, Nat.eqb_refl.
+  destruct Hbd as [Hm Hs]. split; [|split; cbn; [exact Hm|discriminate]].
+  cbn [set_tub set_conns tm ts conns set_broker t_broker]. apply invb_clear_s; [rewrite <- Eb; exact Hb|exact Hg].
+Qed.
+
+Lemma closeseen_inv c x s : inv s -> inv (do_closeseen c x s).
+Proof.
+  intros H. unfold do_closeseen. destruct (close_pending x (conns s c)) eqn:E; [|exact H].
+  destruct x.
+  - apply conn_lost_inv_m; [exact H|reflexivity|]. eapply goodp_lost_pending_m; [exact E|apply (proj1 H)].
+  - apply conn_lost_inv_s; [exact H|reflexivity|]. eapply goodp_lost_pending_s; [exact E|apply (proj1 H)].
+Qed.
+
+(* brokerAttached *)
+Lemma attach_inv_m c s :
+  invb (Some c) (t_broker (ts s)) (conns s) -> c < nconn s -> (forall c', t_broker (ts s) = Some c' -> c' < nconn s) ->
+  inv (attach TM c s).
+Proof.
+  intros Hb Hc Hs. unfold attach.
+  assert (G : forall g, invb (Some c) (t_broker (ts s)) (conns (map_conns (cancel TM g) s))).
+  { intros g. cbn [map_conns set_conns conns]. apply invb_map; [exact Hb|]. intros pm ps k. apply goodp_cancel. }
+  destruct (tub_eqb (c_client (conns s c)) TM).
+  - split; [apply G|]. split; cbn; [intros c' E; inversion E; subst; exact Hc|exact Hs].
+  - destruct (t_connector (tubof TM s)).
+    + split; [apply G|]. split; cbn; [intros c' E; inversion E; subst; exact Hc|exact Hs].
+    + split; [exact Hb|]. split; cbn; [intros c' E; inversion E; subst; exact Hc|exact Hs].
+Qed.
+
+Lemma attach_inv_s c s :
+  invb (t_broker (tm s)) (Some c) (conns s) -> c < nconn s -> (forall c', t_broker (tm s) = Some c' -> c' < nconn s) ->
+  inv (attach TS c s).
+Proof.
+  intros Hb Hc Hs. unfold attach.
+  assert (G : forall g, invb (t_broker (tm s)) (Some c) (conns (map_conns (cancel TS g) s))).
+  { intros g. cbn [map_conns set_conns conns]. apply invb_map; [exact Hb|]. intros pm ps k. apply goodp_cancel. }
+  destruct (tub_eqb (c_client (conns s c)) TS).
+  - split; [apply G|]. split; cbn; [exact Hs|intros c' E; inversion E; subst; exact Hc].
+  - destruct (t_connector (tubof TS s)).
+    + split; [apply G|]. split; cbn; [exact Hs|intros c' E; inversion E; subst; exact Hc].
+    + split; [exact Hb|]. split; cbn; [exact Hs|intros c' E; inversion E; subst; exact Hc].
+Qed.
+
+(* Broker.shutdown of the existing connection *)
+Lemma drop_existing_m s :
+  inv s ->
+  let s' := drop_existing TM s in
+  invb None (t_broker (ts s)) (conns s') /\ t_broker (tm s') = None /\ ts s' = ts s /\ nconn s' = nconn s /\
+  t_inc (tm s') = t_inc (tm s) /\
+  (forall j, c_m (conns s j) <> EBrk -> conns s' j = conns s j).
+Proof.
+  intros [Hb Hbd]. unfold drop_existing. cbn [tubof]. destruct (t_broker (tm s)) as [e|] eqn:E.
+  - cbn [set_tub set_conns tm ts conns nconn set_broker t_broker t_inc].
+    assert (Em : c_m (conns s e) = EBrk) by (apply (Hb e); reflexivity).
+    split; [|split; [reflexivity|split; [reflexivity|split; [reflexivity|split; [reflexivity|]]]]].
+    + apply invb_clear_m; [exact Hb|]. eapply goodp_lose_brk_m; [exact Em|apply Hb].
+    + intros j Hj. apply upd_other. intros ->. contradiction.
+  - rewrite E. split; [exact Hb|]. repeat split; auto.
+Qed.
+
+Lemma drop_existing_s s :
+  inv s ->
+  let s' := drop_existing TS s in
+  invb (t_broker (tm s)) None (conns s') /\ t_broker (ts s') = None /\ tm s' = tm s /\ nconn s' = nconn s /\
+  (forall j, c_s (conns s j) <> EBrk -> conns s' j = conns s j).
+Proof.
+  intros [Hb Hbd]. unfold drop_existing. cbn [tubof]. destruct (t_broker (ts s)) as [e|] eqn:E.
+  - cbn [set_tub set_conns tm ts conns nconn set_broker t_broker].
+    assert (Em : c_s (conns s e) = EBrk) by (apply (Hb e); reflexivity).
+    split; [|split; [reflexivity|split; [reflexivity|split; [reflexivity|]]]].
+    + apply invb_clear_s; [exact Hb|]. eapply goodp_lose_brk_s; [exact Em|apply Hb].
+    + intros j Hj. apply upd_other. intros ->. contradiction.
+  - rewrite E. split; [exact Hb|]. repeat split; auto.
+Qed.
+
+Lemma master_accept_inv c inc s :
+  invb None (t_broker (ts s)) (conns s) -> (forall c', t_broker (ts s) = Some c' -> c' < nconn s) -> c < nconn s ->
+  c_m (conns s c) = ENeg -> inv (master_accept c inc s).
+Proof.
+  intros Hb Hs Hc Em. unfold master_accept. apply attach_inv_m; cbn [tm ts conns nconn]; [|exact Hc|exact Hs].
+  apply invb_set_m; [exact Hb|]. eapply goodp_accept_m; [exact Em|apply Hb].
+Qed.
+
+Lemma pop_sm_inv c s m q :
+  inv s -> c_qsm (conns s c) = m :: q -> (is_fin m = false \/ closed (c_m (conns s c)) = true) ->
+  inv (set_conns (upd (conns s) c (pop_sm (conns s c))) s).
+Proof.
+  intros [Hb Hbd] Eq Hm. split; [|exact Hbd]. cbn [set_conns tm ts conns]. apply invb_upd; [exact Hb|].
+  apply goodp_pop_sm; [exists m, q; auto|apply Hb].
+Qed.
+
+Lemma deliver_m_inv c s : c < nconn s -> inv s -> inv (deliver_m c s).
+Proof.
+  intros Hc H. unfold deliver_m. destruct (c_qsm (conns s c)) as [|m q] eqn:Eq; [exact H|].
+  set (s0 := set_conns (upd (conns s) c (pop_sm (conns s c))) s).
+  assert (H0 : is_fin m = false \/ closed (c_m (conns s c)) = true -> inv s0) by (apply pop_sm_inv with (q := q); assumption).
+  assert (Hl : is_fin m = false -> c_m (conns s c) = ENeg -> inv (set_conns (upd (conns s) c (lose TM (pop_sm (conns s c)))) s)).
+  { intros Hm Em. destruct H as [Hb Hbd]. split; [|exact Hbd]. cbn [set_conns tm ts conns]. apply invb_upd; [exact Hb|].
+    apply goodp_lose_pop_m; [exists m, q; auto|exact Em|apply Hb]. }
+  destruct m as [inc last|a b| |].
+  - (* Hello *)
+    specialize (H0 (or_introl eq_refl)).
+    destruct (c_m (conns s c)) eqn:Em; try exact H0.
+    assert (Em0 : c_m (conns s0 c) = ENeg) by (cbn [s0 set_conns conns]; rewrite upd_same; destruct (conns s c); cbn in *; exact Em).
+    destruct H0 as [Hb0 [Hm0 Hs0]].
+    destruct (t_broker (tm s0)) as [e|] eqn:Eb.
+    + assert (I0 : inv s0) by (split; [rewrite Eb; exact Hb0|split; [rewrite Eb; exact Hm0|exact Hs0]]).
+      assert (R : inv (master_reject c s0)).
+      { destruct I0 as [Hb1 Hbd1]. split; [|exact Hbd1]. cbn [master_reject set_conns tm ts conns]. apply invb_upd; [exact Hb1|].
+        eapply goodp_reject_m; [exact Em0|apply Hb1]. }
+      destruct (compare_offer (Some inc) last (t_bir (tm s0)) (t_bseq (tm s0)) (t_inc (tm s0)) None 0) as [[|]|] eqn:Ecmp;
+        try exact R.
+      pose proof (drop_existing_m s0 I0) as (D1 & D2 & D3 & D4 & D5 & D6). cbv zeta in *.
+      apply master_accept_inv; rewrite ?D3, ?D4; auto;
+        try (rewrite (D6 c) by (rewrite Em0; discriminate); exact Em0).
+    + apply master_accept_inv; auto. rewrite <- Eb. exact Hb0.
+  - destruct (c_m (conns s c)) eqn:Em; try (apply H0; left; reflexivity). apply Hl; reflexivity.
+  - destruct (c_m (conns s c)) eqn:Em; try (apply H0; left; reflexivity). apply Hl; reflexivity.
+  - (* Fin *)
+    assert (Hcl : inv (conn_lost TM c pop_sm s)).
+    { apply conn_lost_inv_m; [exact H|destruct (conns s c); reflexivity|]. eapply goodp_lost_fin_m; [exact Eq|apply (proj1 H)]. }
+    destruct (c_m (conns s c)) eqn:Em; try exact Hcl. apply H0. right. reflexivity.
+Qed.
